@@ -5,7 +5,26 @@ H=$VERIF/harness/c05
 CF="-O1 -g -fsanitize=address -fno-omit-frame-pointer -I$REPO -I$MC -I$H"
 par clang++ -std=c++17 -c $CF $H/c05_bfs.cpp -o $BUILD/bfs.o
 par clang++ -std=c++17 -c $CF $H/c05_streams.cpp -o $BUILD/streams.o
-par clang++ -std=c++17 -c $CF -fno-access-control $H/gs_bind_cfg.cpp -o $BUILD/bind_cfg.o
+# The binding of the configurable receiver reads three private members for the BFS key.  If that does not compile
+# (members renamed / restructured by a refactoring) fall back to the public-API-only key (see gs_bind_cfg.cpp).
+bind_cfg() {
+    if clang++ -std=c++17 -c $CF -fno-access-control $H/gs_bind_cfg.cpp -o $BUILD/bind_cfg.o 2> $BUILD/bind_cfg_full.err; then
+        return 0
+    fi
+    clang++ -std=c++17 -c $CF -DGS_PUBLIC_ONLY $H/gs_bind_cfg.cpp -o $BUILD/bind_cfg.o
+    {
+        echo "NOTE: private state names changed, gs_bind_cfg.cpp no longer compiles against gstuff_autorecv's private members"
+        echo "      (first error: $(grep -m1 'error:' $BUILD/bind_cfg_full.err | cut -c1-200))."
+        echo "      The configurable receivers' BFS state key is now built from the public API only: size(), the cstr() bytes and"
+        echo "      the answers of copies of the receiver to a fixed set of probe sequences (phase and CRC fingerprint);"
+        echo "      capacities, alphabets and fix-point search are unchanged.  If the receiver is not copy-constructible the"
+        echo "      search keys on the symbol history instead (sub-checks named *.history_keyed): no merging on hidden state,"
+        echo "      depth <= 5 symbols (quick) / 6 (thorough), capacities 2..5, reported as exhaustive=false with cap depth=N."
+        echo "      Parts 2 (garbage prefixes, fault sequences, large buffers) and the legacy receiver are not affected."
+    } > $BUILD/notes.txt
+    cat $BUILD/notes.txt
+}
+par bind_cfg
 par clang++ -std=c++17 -c $CF $H/gs_bind_legacy.cpp -o $BUILD/bind_legacy.o
 par clang++ -std=c++17 -c $CF $REPO/igris/protocols/gstuff.cpp -o $BUILD/gstuff.o
 par clang -c $CF $REPO/igris/protocols/gstuff_v1/autorecv.c -o $BUILD/autorecv_v1.o
